@@ -106,6 +106,7 @@ def run(ctx):
                 'has >= 2 faces and an interior edge; distinct by the case description')
     n_mesh = 6 if quick else 40
     exprs, plans = [], []
+    fill_exprs, fill_plans = [], []
     for mi in range(n_mesh):
         nodes, faces = gen.lattice_mesh(rng, w=rng.randint(1, 3), h=rng.randint(1, 3)) if mi else \
             gen.lattice_mesh(rng, w=2, h=2, variety=False, drop=False)
@@ -154,6 +155,20 @@ def run(ctx):
                 continue
             fn_rows = r[1]
             fn = compressed(fn_rows)
+            # the value marking a missing entry in the normalised tables: model Fill.sensible_fill; no element has that number
+            with warnings.catch_warnings():
+                warnings.simplefilter('ignore')
+                rf = attempt(lambda: (int(topo.sensible_fill_value), int(topo.node_count), int(topo.face_count), int(topo.max_node_count)))
+            if rf[0] != 'ok':
+                ctx.report('property', f'sensible_fill_value failed: {rf[1]}', case)
+                continue
+            fillv, nc_, fc_, mnc_ = rf[1]
+            if fillv <= max(nc_, fc_ * mnc_, s.get('ne', 0)) + 1:
+                ctx.report('property', f'the fill value {fillv} of the normalised tables is the number of an element '
+                           f'({nc_} nodes, {fc_} faces of up to {mnc_} nodes, {s.get("ne")} edges)', case)
+                continue
+            fill_exprs.append(f'(sensible_fill {nc_} {fc_} {mnc_})')
+            fill_plans.append((case, fillv))
             # (1) identical faces however the file encodes them
             if fn != [list(f) for f in faces]:
                 ctx.report('property', f'faces decoded as {fn} but the mesh written was {faces}', case)
@@ -225,6 +240,16 @@ def run(ctx):
                 plans.append((case, obs, [], [], [], None))
     model = coq_eval_sharded(['Base.Index', 'Base.ListX', 'Model.Topology'], exprs, shard=10, workers=14)
     ctx.leg('coq_eval_cases', len(exprs))
+    # counts of every magnitude as well (the fill gains a digit at each power of ten)
+    for nc_, fc_, mnc_ in [(0, 0, 0), (9, 2, 4), (10, 2, 4), (99, 33, 3), (100, 25, 4), (999, 250, 4), (1000, 250, 4), (123456, 40000, 6),
+                           (999999, 10, 3), (1000000, 10, 3), (5, 99999, 10), (7, 100000, 10)]:
+        fill_exprs.append(f'(sensible_fill {nc_} {fc_} {mnc_})')
+        fill_plans.append(({'counts': [nc_, fc_, mnc_]}, int('9' * (len(str(max(nc_, fc_ * mnc_))) + 1))))
+    mfill = coq_eval_sharded(['Model.Fill'], fill_exprs, shard=60, workers=4)
+    ctx.leg('fill_values', len(fill_exprs))
+    for (fcase, fillv), mv in zip(fill_plans, mfill):
+        if int(mv) != fillv:
+            ctx.report('correspondence', f'sensible_fill_value {fillv}, model Fill.sensible_fill {mv}', fcase, found_input=False)
     for (case, obs, bad, derived, e_der, tabs), mres in zip(plans, model):
         (m_dec, m_ok), m_der = mres
         if bad:
